@@ -6,7 +6,8 @@
     invariant after every operation; rapidcheck histories over pools of 64-bit points.
 (b) through the engine: random set expressions over `aset add sub overlap`, every observer word
     (`?contains ?overlaps ?empty length low high range elem relem`, `==`, rendering) compared
-    with a Python set model.
+    with a Python set model; and the same over points of the whole 64-bit space (runs 2^31 .. 2^64 wide)
+    against a model of runs.
 """
 import os, random, re, subprocess, time
 
@@ -213,6 +214,167 @@ def work_engine(task):
     return ev
 
 
+# ---- wide sets: the same laws where the runs are 2^31 .. 2^64 addresses wide (a model of runs, not of elements)
+
+def inorm(runs):
+    out = []
+    for a, b in sorted(r for r in runs if r[0] < r[1]):
+        if out and out[-1][1] >= a:
+            out[-1][1] = max(out[-1][1], b)
+        else:
+            out.append([a, b])
+    return [(a, b) for a, b in out]
+
+
+def iunion(x, y):
+    return inorm(list(x) + list(y))
+
+
+def iinter(x, y):
+    return inorm([(max(a, c), min(b, d)) for a, b in x for c, d in y])
+
+
+def idiff(x, y):
+    out = list(x)
+    for c, d in y:
+        nxt = []
+        for a, b in out:
+            nxt += [(a, min(b, c)), (max(a, d), b)]
+        out = [r for r in nxt if r[0] < r[1]]
+    return inorm(out)
+
+
+POINTS = [0, 1, 5, (1 << 31) - 1, 1 << 31, (1 << 31) + 3, (1 << 32) - 1, 1 << 32, (1 << 32) + 7, 1 << 33, 3 << 40, (1 << 63) - 1, 1 << 63,
+          (1 << 63) + 9, U64 + 1 - (1 << 32), U64 - 3, U64 - 2, U64 - 1, U64]
+
+
+class WideGen:
+    def __init__(self, rnd):
+        self.r = rnd
+
+    def pt(self, top=U64):
+        p = self.r.choice(POINTS)
+        if self.r.random() < 0.3:
+            p = max(0, min(U64, p + self.r.randint(-3, 3)))
+        return min(p, top)
+
+    def lit(self, v):
+        return ("0x%x" % v, str(v))[self.r.randint(0, 1)]
+
+    def expr(self, depth):
+        c = self.r.randint(0, 8)
+        if depth == 0 or c <= 2:
+            a, b = self.pt(), self.pt()
+            return "%s %s aset" % (self.lit(a), self.lit(b)), inorm([(min(a, b), max(a, b))])
+        t1, s1 = self.expr(depth - 1)
+        if c <= 6:
+            t2, s2 = self.expr(depth - 1)
+            if c <= 4:
+                return "%s %s add" % (t1, t2), iunion(s1, s2)
+            if c == 5:
+                return "%s %s sub" % (t1, t2), idiff(s1, s2)
+            return "%s %s overlap" % (t1, t2), iinter(s1, s2)
+        a = self.pt(U64 - 1)
+        if c == 7:
+            return "%s %s add" % (t1, self.lit(a)), iunion(s1, [(a, a + 1)])
+        return "%s %s sub" % (t1, self.lit(a)), idiff(s1, [(a, a + 1)])
+
+
+WOBS = ("(|X| [X] [X length] [X low] [X high] [X range] [X ?empty] [X !empty] \"%( X %)\" [X range length] [X range low] "
+        "[X range high] [X range pos])")
+
+
+def check_wide(drv, ev, text, runs, rnd):
+    def bad(why):
+        ev.violations.append({"property": PID, "query": text, "reason": why, "expected_runs": [[str(a), str(b)] for a, b in runs[:20]],
+                              "signature": "C16:w:" + text})
+        return False
+    r = drv.run("%s %s" % (text, WOBS), limit=10)
+    if "cerror" in r or "error" in r or len(r.get("res", [])) != 1 or r["stderr"] or len(r["res"][0]) != 12:
+        return bad("observer query failed: %r" % {k: (v if k != "res" else len(v)) for k, v in r.items()})
+    st = r["res"][0]
+    val = st[0]["e"][0] if st[0]["t"] == "q" and len(st[0]["e"]) == 1 else {"t": "?"}
+    if val["t"] != "as" or aset_runs(val) != runs:
+        return bad("value is %r, expected runs %r" % (val.get("r"), runs))
+    ints = lambda x: [int(e["v"]) for e in x["e"]]
+    total = sum(b - a for a, b in runs)
+    if ints(st[1]) != [total]:
+        return bad("length %r, the set has %d addresses" % (ints(st[1]), total))
+    if ints(st[2]) != ([runs[0][0]] if runs else []) or ints(st[3]) != ([runs[-1][1]] if runs else []):
+        return bad("low/high %r/%r of runs %r" % (ints(st[2]), ints(st[3]), runs))
+    if [aset_runs(e) for e in st[4]["e"]] != [[x] for x in runs]:
+        return bad("range yields %r, expected %r" % ([e.get("r") for e in st[4]["e"]], runs))
+    if (len(st[5]["e"]) == 1) != (not runs) or len(st[5]["e"]) + len(st[6]["e"]) != 1:
+        return bad("?empty/!empty wrong")
+    txt = bytes.fromhex(st[7]["x"]).decode()
+    exp_txt = ", ".join("[%s, %s)" % (hex(a) if a else "0", hex(b) if b else "0") for a, b in runs) if runs else "[)"
+    if txt != exp_txt:
+        return bad("renders as %r, expected %r" % (txt, exp_txt))
+    if ints(st[8]) != [b - a for a, b in runs] or ints(st[9]) != [a for a, b in runs] or ints(st[10]) != [b for a, b in runs] \
+            or ints(st[11]) != list(range(len(runs))):
+        return bad("range length/low/high/pos wrong: %r %r %r %r for runs %r" % (ints(st[8]), ints(st[9]), ints(st[10]), ints(st[11]), runs))
+    probes = sorted(set(p for a, b in runs for p in (a - 1, a, b - 1, b) if 0 <= p < U64) | set(rnd.sample(POINTS[:-1], 4)))
+    q = "%s (|X| [(%s) (|A| X A ?contains A)] [(%s) (|A| X A !contains A)])" % (text, ", ".join(map(str, probes)), ", ".join(map(str, probes)))
+    r = drv.run(q, limit=10)
+    if "res" not in r or len(r["res"]) != 1 or r["stderr"]:
+        return bad("membership query failed: %r" % {k: v for k, v in r.items() if k != "res"})
+    inside = lambda p: any(a <= p < b for a, b in runs)
+    if ints(r["res"][0][0]) != [p for p in probes if inside(p)] or ints(r["res"][0][1]) != [p for p in probes if not inside(p)]:
+        return bad("?contains/!contains wrong on probes %r: in %r" % (probes, ints(r["res"][0][0])))
+    return True
+
+
+def work_wide(task):
+    seed, start, count = task
+    ev = Evidence()
+    drv = Driver()
+    try:
+        for i in range(start, start + count):
+            rnd = random.Random((seed << 32) ^ (i * 2654435761 & 0xffffffff) ^ 0xC16F)
+            g = WideGen(rnd)
+            try:
+                t1, s1 = g.expr(rnd.randint(1, 3))
+                ok = check_wide(drv, ev, t1, s1, rnd)
+                total = sum(b - a for a, b in s1)
+                ev.case(key=("wide", t1), nontrivial=total >= 1 << 31)
+                ev.label("wide:" + ("<2^31" if total < 1 << 31 else "<2^32" if total < 1 << 32 else "<2^63" if total < 1 << 63 else ">=2^63"))
+                if len(s1) >= 2 and total >= 1 << 31:
+                    ev.label("wide:several-runs")
+                if ok is True and total >= 1 << 31 and rnd.random() < 0.01:
+                    ev.sample({"expr": t1, "runs": [[hex(a), hex(b)] for a, b in s1]})
+                t2, s2 = g.expr(rnd.randint(1, 2))
+                if rnd.random() < 0.3:
+                    parts = list(s1)
+                    rnd.shuffle(parts)
+                    t2 = "0 0 aset" + "".join(" %d %d aset add" % (a, b) for a, b in parts)
+                    s2 = list(s1)
+                q = ("%s %s (|X Y| [X Y ?eq] [X Y !eq] [X Y ?contains] [X Y !contains] [X Y ?overlaps] [X Y !overlaps] "
+                     "[(X == Y)] [(X != Y)] [X Y ?lt] [X Y ?gt] [Y X ?lt] [Y X ?gt])") % (t1, t2)
+                r = drv.run(q, limit=10)
+                ev.case(key=("wrel", t1, t2), nontrivial=True)
+                if "res" not in r or len(r["res"]) != 1 or r["stderr"] or len(r["res"][0]) != 12:
+                    ev.violations.append({"property": PID, "query": q, "reason": "relation query failed: %r" % {k: v for k, v in r.items() if k != "res"},
+                                          "signature": "C16:wrel:" + q})
+                    continue
+                got = [len(x["e"]) for x in r["res"][0]]
+                eq = s1 == s2
+                exp = [int(eq), int(not eq), int(idiff(s2, s1) == []), int(idiff(s2, s1) != []), int(bool(iinter(s1, s2))), int(not iinter(s1, s2)),
+                       int(eq), int(not eq)]
+                if got[:8] != exp:
+                    ev.violations.append({"property": PID, "query": q, "signature": "C16:wrel:" + q,
+                                          "reason": "relations [eq ne contains !contains overlaps !overlaps == !=] = %r, expected %r (sets %r and %r)" % (got[:8], exp, s1, s2)})
+                elif got[8] + got[9] != (0 if eq else 1) or got[8] != got[11] or got[9] != got[10]:
+                    ev.violations.append({"property": PID, "query": q, "signature": "C16:wtri:" + q,
+                                          "reason": "order of sets is not a total order: X<Y %d X>Y %d Y<X %d Y>X %d, equal: %s" % (got[8], got[9], got[10], got[11], eq)})
+            except DriverCrash as ex:
+                ev.violations.append({"property": PID, "query": t1, "reason": "driver crashed: " + ex.report[-2000:], "signature": "C16:crash:" + t1})
+            except DriverTimeout:
+                ev.inconc("watchdog")
+    finally:
+        drv.kill()
+    return ev
+
+
 def run_hcov(args, env=None):
     e = dict(os.environ)
     e["ASAN_OPTIONS"] = "abort_on_error=1:detect_leaks=1"
@@ -269,13 +431,19 @@ def main(tier, seed):
     per = max(100, n_eng // 48)
     ev.merge(run_pool(work_engine, [(seed, s, min(per, n_eng - s)) for s in range(0, n_eng, per)]))
     ev.extra["engine_expressions"] = n_eng
+    n_wide = 3000 if tier == "quick" else 60000
+    per = max(50, n_wide // 48)
+    ev.merge(run_pool(work_wide, [(seed, s, min(per, n_wide - s)) for s in range(0, n_wide, per)]))
+    ev.extra["engine_wide_expressions"] = n_wide
     nt_engine = len(ev.nontrivial)
     rcode = finish(PID, tier, seed, ev, RULE, t0, exhaustive=True,
                    assumptions=["bitmap / Python set as the model of an address set",
                                 "address 2^64-1 is never a member (its range end is not representable; the statement excludes it)",
                                 "exhaustive=true refers to the BFS sub-space"],
                    health={"bfs ran": ev.extra.get("bfs_evaluations", 0) > 0,
-                           "differently-built equal sets compared": ev.labels.get("equal-set-built-differently", 0) > 0})
+                           "differently-built equal sets compared": ev.labels.get("equal-set-built-differently", 0) > 0,
+                           "wide sets: totals in [2^31, 2^32), [2^32, 2^63) and beyond, also made of several runs":
+                           all(ev.labels.get("wide:" + k, 0) > 50 for k in ("<2^32", "<2^63", ">=2^63", "several-runs"))})
     import json
     from ..harness import EVIDENCE_DIR
     path = os.path.join(EVIDENCE_DIR, PID + ".json")
